@@ -199,6 +199,8 @@ def run(case):
                 if not ref.close(v, e):
                     res.fail(eng + ':compact-value', 'entry %d (pair %r) = %r, reference %r' % (k, pairs[k], v, e))
                     break
+            else:
+                _to_matrix(res, eng, case, got, pairs, exp, data, lkw)
         else:
             M = np.asarray(got, dtype=float)
             results[eng] = [float(v) for v in M.ravel()]
@@ -244,6 +246,46 @@ def run(case):
                     res.fail('index:value', 'distance_array_index(%d,%d,%d)=%r does not address d(%d,%d)' % (a, b, n, idx, r, c))
                     return res
     return res
+
+
+def _to_matrix(res, eng, case, got, pairs, exp, data, lkw):
+    """The documented conversion of a compact result into the square form (distances_array_to_matrix, both forms), and
+    the function object distance_matrix_func hands to the clustering code: same data, same layout."""
+    import numpy as np
+    from dtaidistance import dtw
+    n, block = len(case['series']), case['block']
+    if block is not None and len(block) > 2 and block[2] is False:
+        return      # the square form of a non-triangular block is rejected by the API
+    for triu in (False, True):
+        M, exc = libcall(dtw.distances_array_to_matrix, got, n, block=lib_block(block), only_triu=triu)
+        if exc:
+            res.fail('%s:to_matrix:%s' % (eng, exc), 'distances_array_to_matrix raised (block=%r)' % (block,))
+            return
+        M = np.asarray(M, dtype=float)
+        if M.shape != (n, n):
+            res.fail(eng + ':to_matrix:shape', 'shape %r for %d series' % (M.shape, n))
+            return
+        E = [[inf] * n for _ in range(n)]
+        for (r, c), e in zip(pairs, exp):
+            E[r][c] = e
+            if not triu:
+                E[c][r] = e
+        for a in range(n):
+            for b in range(n):
+                v = float(M[a, b])
+                ok = ((v == 0.0) if not triu else (v == 0.0 or v == inf)) if a == b else ref.close(v, E[a][b])
+                if not ok:
+                    res.fail(eng + ':to_matrix:value', 'distances_array_to_matrix(only_triu=%r)[%d,%d]=%r, expected %r (block=%r)'
+                             % (triu, a, b, v, E[a][b] if a != b else 0.0, block))
+                    return
+    if case['ndim'] == 1:
+        f = dtw.distance_matrix_func(use_c=(eng == 'c'))
+        got2, exc = libcall(f, data, block=lib_block(block), compact=True, **lkw)
+        if exc:
+            res.fail('%s:matrix_func:%s' % (eng, exc), 'the function returned by distance_matrix_func raised')
+        elif [float(v) for v in got2] != [float(v) for v in got]:
+            res.fail(eng + ':matrix_func:differs', 'distance_matrix_func(...)(...) = %r, distance_matrix = %r'
+                     % ([float(v) for v in got2][:6], [float(v) for v in got][:6]))
 
 
 # ------------------------------------------------------------------------------------------------------
